@@ -87,6 +87,9 @@ func header(domain string) string {
 	return `<stream:stream xmlns='jabber:client' xmlns:stream='` + streamNS + `' version='1.0' id='s1' from='` + domain + `'>`
 }
 
+// firstHeaderTo, if set, is the to attribute of the peer's clear-text header.
+var firstHeaderTo string
+
 // mapOrder, if set, owns the map iteration order of the library during run.
 var mapOrder *nd.Ctx
 
@@ -141,7 +144,11 @@ func runAt(feature xmpp.StreamFeature, cfg clientCfg, location, origin jid.JID, 
 		switch phase {
 		case 0:
 			phase = 1
-			return header(domain) + `<stream:features>` + firstLists[list].xml + `</stream:features>`, nil
+			h := header(domain)
+			if firstHeaderTo != "" {
+				h = strings.Replace(h, ` from='`, ` to='`+firstHeaderTo+`' from='`, 1)
+			}
+			return h + `<stream:features>` + firstLists[list].xml + `</stream:features>`, nil
 		case 1:
 			if !strings.Contains(w, "<starttls") {
 				// the library did not ask for TLS: whatever it does now, the peer just
@@ -276,6 +283,13 @@ func scenarioBody(c *nd.Ctx) nd.Result {
 	desc := fmt.Sprintf("first-list=%s answer=%s explicit-tls-config=%v tee=%d other-features=%v", firstLists[list].name, answers[answer].name, cfg.explicitTLS, cfg.tee, cfg.others)
 	c.Note("%s", desc)
 	res := nd.Result{Outcome: "error", NonTrivial: desc}
+	// what the peer's clear-text header says about us: nothing, our own address,
+	// or somebody else's (the handshake must still name our own domain, or fail)
+	hdrTo := []string{"", "me@example.com/r", "me@evil.example"}[c.Choose(3, "first-header-to")]
+	firstHeaderTo = hdrTo
+	defer func() { firstHeaderTo = "" }()
+	desc += fmt.Sprintf(" first-header-to=%q", hdrTo)
+	res.NonTrivial = desc
 	mapOrder = c
 	obs := run(mk(), cfg, origin, list, answer)
 	mapOrder = nil
